@@ -1,13 +1,31 @@
 from runner import Prop, Stream
 from qe_common import QE_TRUSTED, QE_ASSUMPTIONS, valid_qe, shrink_request
 
+
+def classify_sub(inp):
+    """input classes of the defects of the sub-request form described in notes/C17.md (for known_findings.json)"""
+    try:
+        for line in inp["lines"][1:]:
+            head, _, arg = line.partition(":")
+            if head.strip().lower() == "limit" and arg.strip() == "0":
+                return "sub_limit0_sent_unlimited"
+    except (KeyError, TypeError, AttributeError):
+        pass
+    return None
+
+
 PROP = Prop(
     pid="C17",
     coq_props="theories/C17/Props.v",
-    coq_run=["theories/QE/Run.v", "theories/C17/Run.v"],
+    coq_run=["theories/QE/Run.v", "theories/C17/Run.v", "theories/C17/RunSub.v"],
     streams=[Stream("c17", "qe", n_quick=400, n_thorough=4000, shards_thorough=8, valid=valid_qe, shrinker=shrink_request,
                     extra_args=["--profile", "c17"],
-                    what="generated requests through NewRequest/NewResponse/Buffer on a daemon loaded by the importer (profile c17)")],
+                    what="generated requests through NewRequest/NewResponse/Buffer on a daemon loaded by the importer (profile c17)"),
+             Stream("c17sub", "c17sub", n_quick=250, n_thorough=3000, shards_thorough=6, valid=valid_qe, shrinker=shrink_request,
+                    classify=classify_sub,
+                    what="the cluster sub-request form: generated requests through NewRequest / buildDistributedRequestData / JSON / "
+                         "parseRequestDataToRequest / NewResponse / Buffer on a daemon loaded by the importer, compared with the model's answer "
+                         "to the request the sub-request has to mean (data rows in order, total_count, raw Stats accumulators)")],
     trusted_base=QE_TRUSTED,
     assumptions=QE_ASSUMPTIONS,
 )
